@@ -20,7 +20,7 @@ func (h H) storesOnEveryPath(fn *ssa.Function, addr string, ok func(val string, 
 	fi := h.P.Info(fn)
 	var hits []ssa.Instruction
 	core.Instrs(fn, func(in ssa.Instruction) {
-		if st, isSt := in.(*ssa.Store); isSt && fi.Sym(st.Addr).String() == addr && ok(fi.Sym(st.Val).String(), st) {
+		if st, isSt := in.(*ssa.Store); isSt && fi.Sym(st.Addr).String() == addr && ok(h.expandLocals(fn, fi.Sym(st.Val).String()), st) {
 			hits = append(hits, in)
 		}
 	})
@@ -575,4 +575,345 @@ func (h H) candidateReleaseRetiresChannel(rule string) {
 		_ = fi
 		h.C.Check(rule+" results-from-own-channel", h.site(sl, ovr, k), strings.HasPrefix(arg, "select@"), h.pos(c.(ssa.Instruction)), "vote results must come from the select on candidate.respCh; found "+arg)
 	}
+}
+
+// nextActionTable (C08.8): Node.nextAction is the decision table of the whole
+// membership engine — which step, if any, the leader takes next for a node. It
+// is a pure function of (Voter, Action); every path's condition is compared
+// with the table the design documents:
+//
+//	ForceRemove                       -> ForceRemove (voter or not)
+//	voter     & Demote | Remove       -> Demote (a voter is demoted before it is removed)
+//	non-voter & Promote | Remove      -> that action
+//	everything else                   -> None
+//
+// For each path of the function, every (Voter, Action) pair consistent with the
+// path's branch conditions must map to the value the path returns.
+func (h H) nextActionTable(rule string) {
+	fn := h.fn("raft:(Node).nextAction")
+	sim := h.simAll()
+	ts := sim.Run(fn)
+	if sim.Trunc {
+		h.C.Undecided(rule, "(Node).nextAction", h.fpos(fn), "not loop-free")
+		return
+	}
+	acts := map[string]string{}
+	for _, n := range []string{"None", "Promote", "Demote", "Remove", "ForceRemove"} {
+		acts[n] = h.constStr("raft:" + n)
+	}
+	expected := func(voter bool, a string) string {
+		switch {
+		case a == "ForceRemove":
+			return acts["ForceRemove"]
+		case voter && (a == "Demote" || a == "Remove"):
+			return acts["Demote"]
+		case !voter && (a == "Promote" || a == "Remove"):
+			return acts[a]
+		}
+		return acts["None"]
+	}
+	covered := map[string]bool{}
+	for _, t := range ts {
+		if t.Exit != "return" || len(t.Ret) != 1 {
+			continue
+		}
+		key := "(Node).nextAction path[" + t.Describe() + "]"
+		bad := ""
+		for _, voter := range []bool{true, false} {
+			vs := "false"
+			if voter {
+				vs = "true"
+			}
+			for name, c := range acts {
+				f := append([]core.Rel{}, t.Facts...)
+				f = append(f, core.Rel{A: "Node.Voter", Op: "==", B: vs}, core.Rel{A: "Node.Action", Op: "==", B: c})
+				if !core.Consistent(f, t.Unsigned) {
+					continue
+				}
+				covered[vs+"/"+name] = true
+				got := t.Ret[0]
+				if got == "Node.Action" {
+					got = c
+				}
+				if got != expected(voter, name) {
+					bad = fmt.Sprintf("for Voter=%v Action=%s the next action is %s, the design says %s", voter, name, got, expected(voter, name))
+				}
+			}
+		}
+		h.C.Check(rule, key, bad == "", t.ExitPos, bad)
+	}
+	h.C.Check(rule+" total", "(Node).nextAction", len(covered) == 10, h.fpos(fn), fmt.Sprintf("only %d of the 10 (Voter, Action) combinations reach a return", len(covered)))
+}
+
+// callsOnEveryPath: fn calls callee with the given canonical arguments (from
+// index 1 on; "" = any) on every path to a return.
+func (h H) callsOnEveryPath(fn, callee *ssa.Function, args ...string) (bool, string, ssa.Instruction) {
+	var hit ssa.Instruction
+	for _, c := range h.P.CallsTo(fn, callee) {
+		ok := true
+		for i, a := range args {
+			if a != "" && h.expandLocals(fn, h.argStr(c, i+1)) != a {
+				ok = false
+			}
+		}
+		if !ok {
+			continue
+		}
+		dom := true
+		for _, r := range core.Returns(fn) {
+			if !core.Dominates(c.(ssa.Instruction), r) {
+				dom = false
+			}
+		}
+		if dom {
+			hit = c.(ssa.Instruction)
+		}
+	}
+	if hit == nil {
+		return false, fmt.Sprintf("no call of %s(%s) that precedes every return", h.name(callee), strings.Join(args, ", ")), nil
+	}
+	return true, "", hit
+}
+
+// configSetters (C08.9 / C19.3c): the who-may-write rules say only these
+// functions touch configs.Latest / configs.Committed / commitIndex; this rule
+// says they do: the chain setCommitIndex -> commitConfig, changeConfig ->
+// setLatest, revertConfig -> setLatest(Committed) is complete, in order, on
+// every path, and a configuration counts as committed exactly when the commit
+// index has reached it.
+func (h H) configSetters(rule string) {
+	check := func(name string, ok bool, why string, fn *ssa.Function) {
+		h.C.Check(rule, name, ok, h.fpos(fn), why)
+	}
+	sl := h.fn("raft:(*Raft).setLatest")
+	ok, why := h.storesOnEveryPath(sl, "Raft.storage.configs.Latest", func(v string, _ *ssa.Store) bool { return v == "Config" })
+	check("(*Raft).setLatest stores configs.Latest", ok, "setLatest must store its argument into configs.Latest on every path: "+why, sl)
+	cc := h.fn("raft:(*Raft).commitConfig")
+	ok, why = h.storesOnEveryPath(cc, "Raft.storage.configs.Committed", func(v string, _ *ssa.Store) bool { return v == "Raft.storage.configs.Latest" })
+	check("(*Raft).commitConfig stores configs.Committed", ok, "commitConfig must make the latest configuration the committed one on every path: "+why, cc)
+	rv := h.fn("raft:(*Raft).revertConfig")
+	ok, why, _ = h.callsOnEveryPath(rv, sl, "Raft.storage.configs.Committed")
+	check("(*Raft).revertConfig reverts to Committed", ok, why, rv)
+	// Raft.changeConfig: Committed := Latest, then setLatest(config)
+	ch := h.fn("raft:(*Raft).changeConfig")
+	ok2, why2, call := h.callsOnEveryPath(ch, sl, "Config")
+	okOrder := false
+	if ok2 {
+		fi := h.P.Info(ch)
+		core.Instrs(ch, func(in ssa.Instruction) {
+			if st, isSt := in.(*ssa.Store); isSt && fi.Sym(st.Addr).String() == "Raft.storage.configs.Committed" && fi.Sym(st.Val).String() == "Raft.storage.configs.Latest" && core.Dominates(in, call) {
+				okOrder = true
+			}
+		})
+		why2 = "the outgoing configuration must become configs.Committed before the new one is installed"
+	}
+	check("(*Raft).changeConfig installs the configuration", ok2 && okOrder, why2, ch)
+	// leader.changeConfig: caches + Raft.changeConfig
+	lc := h.fn("raft:(*leader).changeConfig")
+	ok, why, _ = h.callsOnEveryPath(lc, ch, "Config")
+	check("(*leader).changeConfig installs the configuration", ok, why, lc)
+	ok, why = h.storesOnEveryPath(lc, "leader.numVoters", func(v string, _ *ssa.Store) bool { return v == "(Config).numVoters(Config)" })
+	check("(*leader).changeConfig refreshes numVoters", ok, "the voter count must be recomputed from the new configuration on every path: "+why, lc)
+	ok, why = h.storesOnEveryPath(lc, "leader.node", func(v string, _ *ssa.Store) bool { return v == "Config.Nodes[leader.Raft.storage.nid]" })
+	check("(*leader).changeConfig refreshes node", ok, "the leader's own node entry must be re-read from the new configuration on every path: "+why, lc)
+	// Raft.setCommitIndex
+	sc := h.fn("raft:(*Raft).setCommitIndex")
+	ok, why = h.storesOnEveryPath(sc, "Raft.commitIndex", func(v string, _ *ssa.Store) bool { return v == "$1" })
+	check("(*Raft).setCommitIndex stores commitIndex", ok, why, sc)
+	fi := h.P.Info(sc)
+	for k, r := range core.Returns(sc) {
+		res := fi.MustCrossOrPass(r, func(a core.Atom) bool {
+			return a.Implies(core.MkAtom("Raft.storage.configs.Committed.Index", "==", "Raft.storage.configs.Latest.Index")) ||
+				a.Implies(core.MkAtom("Raft.commitIndex", "<", "Raft.storage.configs.Latest.Index")) ||
+				a.Op == "true" && strings.HasPrefix(a.L, "(Configs).IsCommitted(")
+		}, nil, func(in ssa.Instruction) bool { return h.P.IsCallTo(in, cc) })
+		h.C.Check(rule, fmt.Sprintf("(*Raft).setCommitIndex return#%d commits the configuration it reached", k+1), res.OK, h.pos(r), "the commit index has reached an uncommitted latest configuration and commitConfig is not called: "+res.Witness)
+	}
+}
+
+// stateDriver (C01.7 / C15.5b / C17.10): the role state machine is driven by
+// three small pieces that everything else takes for granted: setState and
+// setLeader store what they are given (when it differs), stateLoop runs
+// init() of the role it enters and release() of the role it leaves — the hooks
+// on which every lifecycle rule above hangs — and Shutdown initiates the close.
+func (h H) stateDriver(rule string) {
+	for _, s := range []struct{ spec, field string }{{"raft:(*Raft).setState", "Raft.state"}, {"raft:(*Raft).setLeader", "Raft.leader"}} {
+		fn := h.fn(s.spec)
+		fi := h.P.Info(fn)
+		for k, r := range core.Returns(fn) {
+			res := fi.MustCrossOrPass(r, func(a core.Atom) bool {
+				return a.Implies(core.MkAtom("$1", "==", s.field))
+			}, nil, func(in ssa.Instruction) bool {
+				st, ok := in.(*ssa.Store)
+				return ok && fi.Sym(st.Addr).String() == s.field && fi.Sym(st.Val).String() == "$1"
+			})
+			h.C.Check(rule+" setter-sets", fmt.Sprintf("%s return#%d", h.name(fn), k+1), res.OK, h.pos(r), h.name(fn)+" can return without "+s.field+" holding its argument: "+res.Witness)
+		}
+	}
+	sl := h.fn("raft:(*Raft).stateLoop")
+	fi := h.P.Info(sl)
+	isInvoke := func(in ssa.Instruction, method string) bool {
+		c, ok := in.(*ssa.Call)
+		return ok && c.Common().IsInvoke() && c.Common().Method.Name() == method
+	}
+	// the outer loop: the header that is not nested in another loop
+	var outer *ssa.BasicBlock
+	hds := core.LoopHeaders(sl)
+	for _, hd := range hds {
+		nested := false
+		for _, o := range hds {
+			if o != hd && core.InLoop(o, hd) {
+				nested = true
+			}
+		}
+		if !nested {
+			outer = hd
+		}
+	}
+	if !h.C.Check(rule+" driver-loop", "(*Raft).stateLoop", outer != nil, h.fpos(sl), "no outer role loop found") {
+		return
+	}
+	rInit := fi.LoopBodyMustPass(outer, func(in ssa.Instruction) bool { return isInvoke(in, "init") })
+	rRel := fi.LoopBodyMustPass(outer, func(in ssa.Instruction) bool { return isInvoke(in, "release") })
+	rStop := fi.LoopBodyMustPass(outer, func(in ssa.Instruction) bool { return h.P.IsCallTo(in, h.fn("raft:(*safeTimer).stop")) })
+	h.C.Check(rule+" role-hooks", "(*Raft).stateLoop role loop", rInit.OK && rRel.OK && rStop.OK, h.fpos(sl), fmt.Sprintf("each pass of the role loop must run init() of the role entered (%v), stop the role timer (%v) and run release() of the role left (%v)", rInit.OK, rStop.OK, rRel.OK))
+	// the role whose hooks run is the current one: `state = r.state` in the loop, hooks invoked on states[state]
+	okState := false
+	core.Instrs(sl, func(in ssa.Instruction) {
+		if st, ok := in.(*ssa.Store); ok && fi.Sym(st.Addr).String() == "local:state" && fi.Sym(st.Val).String() == "Raft.state" && (in.Block() == outer || core.InLoop(outer, in.Block())) {
+			okState = true
+		}
+	})
+	h.C.Check(rule+" role-hooks", "(*Raft).stateLoop current role", okState, h.fpos(sl), "the role loop must re-read Raft.state at the start of each pass")
+	// the inner loop runs while the role is unchanged
+	okInner := false
+	for _, hd := range hds {
+		if hd == outer {
+			continue
+		}
+		for _, ex := range fi.LoopExits(hd) {
+			if ex.Has && ex.Atom.Implies(core.MkAtom("Raft.state", "!=", "local:state")) {
+				okInner = true
+			}
+		}
+	}
+	h.C.Check(rule+" role-hooks", "(*Raft).stateLoop event loop", okInner, h.fpos(sl), "the event loop of a role must end when Raft.state changes")
+	// on the way out: release of the current role and of the node
+	okDefer := false
+	for _, cl := range h.P.DeferredClosures(sl) {
+		a, b := false, false
+		core.Instrs(cl, func(in ssa.Instruction) {
+			if isInvoke(in, "release") {
+				a = true
+			}
+			if h.P.IsCallTo(in, h.fn("raft:(*Raft).release")) {
+				b = true
+			}
+		})
+		if a && b {
+			okDefer = true
+		}
+	}
+	h.C.Check(rule+" role-hooks", "(*Raft).stateLoop epilogue", okDefer, h.fpos(sl), "when stateLoop ends the current role's release() and Raft.release() must run (deferred)")
+	// r.ldr / r.cnd published (handlers reach the role objects through them)
+	okPub := 0
+	core.Instrs(sl, func(in ssa.Instruction) {
+		if st, ok := in.(*ssa.Store); ok {
+			a := fi.Sym(st.Addr).String()
+			if a == "Raft.ldr" || a == "Raft.cnd" {
+				okPub++
+			}
+		}
+	})
+	h.C.Check(rule+" role-objects-published", "(*Raft).stateLoop", okPub == 2, h.fpos(sl), "stateLoop must publish its leader and candidate objects in Raft.ldr / Raft.cnd")
+	// Shutdown initiates the close
+	sh := h.fn("raft:(*Raft).Shutdown")
+	dc := h.fn("raft:(*Raft).doClose")
+	ok, why, _ := h.callsOnEveryPath(sh, dc, "global:ErrServerClosed")
+	h.C.Check(rule+" shutdown-initiates-close", "(*Raft).Shutdown", ok, h.fpos(sh), why)
+}
+
+// commitReadyReevaluates (C17.9b): the complement of the own-term-commit gate
+// on canChangeConfig (C08.2): membership actions postponed because the leader
+// had not yet committed an entry of its term are looked at again in the
+// activation in which it does. Otherwise a promotion/removal pending in the
+// committed configuration waits for some unrelated later event.
+func (h H) commitReadyReevaluates(rule string) {
+	fn := h.fn("raft:(*leader).setCommitIndex")
+	fi := h.P.Info(fn)
+	cca := h.fn("raft:(*leader).checkConfigActions")
+	isReady := func(l string) bool {
+		return strings.Contains(l, "$1 >= leader.startIndex") || strings.Contains(l, "leader.startIndex <= $1")
+	}
+	n := 0
+	for k, r := range core.Returns(fn) {
+		n++
+		res := fi.MustCrossOrPass(r, func(a core.Atom) bool {
+			if a.Op == "false" && isReady(a.L) {
+				return true // not (newly) commit ready
+			}
+			if a.Implies(core.MkAtom("$1", "<", "leader.startIndex")) || a.Implies(core.MkAtom("leader.Raft.commitIndex", ">=", "leader.startIndex")) {
+				return true
+			}
+			return a.Op == "true" && strings.HasPrefix(a.L, "(Configs).IsStable(")
+		}, nil, func(in ssa.Instruction) bool { return h.P.IsCallTo(in, cca) })
+		h.C.Check(rule, fmt.Sprintf("(*leader).setCommitIndex return#%d", k+1), res.OK, h.pos(r), "the leader has just committed its first own-term entry and does not re-evaluate the membership actions it had to postpone: "+res.Witness)
+	}
+	h.C.Floor(rule+" (returns of leader.setCommitIndex)", n, 1)
+}
+
+// oneSnapshotAtATime (C15.4f / C12.1b): snapTakenCh is the in-progress flag of
+// snapshot taking and the only way the snapshot goroutine's result (and with
+// it the submitter's task) comes back. A new request may replace it only when
+// no snapshot is in progress; otherwise the running goroutine's result lands in
+// a channel nobody reads and its task is never answered.
+func (h H) oneSnapshotAtATime(rule string) {
+	fn := h.fn("raft:(*Raft).onTakeSnapshot")
+	fi := h.P.Info(fn)
+	n := 0
+	core.Instrs(fn, func(in ssa.Instruction) {
+		st, ok := in.(*ssa.Store)
+		if !ok || fi.Sym(st.Addr).String() != "Raft.snapTakenCh" {
+			return
+		}
+		n++
+		_, isMk := st.Val.(*ssa.MakeChan)
+		h.C.Check(rule+" fresh-result-channel", "(*Raft).onTakeSnapshot store snapTakenCh", isMk, h.pos(in), "the in-progress marker must be a fresh result channel")
+		h.gate(rule+" only-when-idle", "(*Raft).onTakeSnapshot store snapTakenCh", in, core.MkAtom("Raft.snapTakenCh", "==", "nil"))
+	})
+	h.C.Floor(rule+" (snapTakenCh stores in onTakeSnapshot)", n, 1)
+	// the go statement that takes the snapshot is behind the same gate
+	for k, g := range h.P.GoSites(fn) {
+		h.gateLoose(rule+" only-when-idle", fmt.Sprintf("(*Raft).onTakeSnapshot go#%d", k+1), g, core.MkAtom("Raft.snapTakenCh", "==", "nil"))
+	}
+	// onSnapshotTaken clears the marker on every path
+	ost := h.fn("raft:(*Raft).onSnapshotTaken")
+	ok, why := h.storesOnEveryPath(ost, "Raft.snapTakenCh", func(v string, _ *ssa.Store) bool { return v == "nil" })
+	h.C.Check(rule+" marker-cleared", "(*Raft).onSnapshotTaken", ok, h.fpos(ost), "onSnapshotTaken must clear the in-progress marker on every path (or no further snapshot can ever be taken): "+why)
+}
+
+// transferTimeoutAnswers (C16.3b / C15.4g): when the transfer timer fires the
+// transfer is over (inProgress() is the timer's active flag, cleared by
+// stateLoop before the handler runs); the handler must answer the pending
+// request with a non-nil error on every path, through replyTransfer (which also
+// re-evaluates the membership actions that were blocked meanwhile).
+func (h H) transferTimeoutAnswers(rule string) {
+	fn := h.fn("raft:(*leader).onTransferTimeout")
+	rt := h.fn("raft:(*leader).replyTransfer")
+	ok, why, call := h.callsOnEveryPath(fn, rt)
+	nonNil := false
+	if ok {
+		if c, isC := call.(ssa.CallInstruction); isC {
+			a := c.Common().Args[1]
+			if mi, isMI := a.(*ssa.MakeInterface); isMI {
+				a = mi.X
+			}
+			nonNil = !isNilConst(a)
+		}
+		why = "the timeout must be reported as an error"
+	}
+	h.C.Check(rule, "(*leader).onTransferTimeout", ok && nonNil, h.fpos(fn), "a timed-out leadership transfer is not answered: "+why)
+	// stateLoop clears the timer's active flag and calls the handler
+	sl := h.fn("raft:(*Raft).stateLoop")
+	h.C.Check(rule+" dispatched", "(*Raft).stateLoop transfer timer", len(h.P.CallsTo(sl, fn)) == 1, h.fpos(sl), "stateLoop must dispatch the transfer timer to onTransferTimeout")
 }
